@@ -117,15 +117,13 @@ NEG = {"Lt": "Ge", "Le": "Gt", "Gt": "Le", "Ge": "Lt", "Eq": "Ne", "Ne": "Eq"}
 SWAP = {"Lt": "Gt", "Le": "Ge", "Gt": "Lt", "Ge": "Le", "Eq": "Eq", "Ne": "Ne"}
 
 LEN_CALLS = {
-    "core::slice::<impl [T]>::len", "std::vec::Vec::len", "alloc::vec::Vec::len", "core::str::<impl str>::len",
-    "std::collections::VecDeque::len", "heapless::Vec::len", "arraydeque::ArrayDeque::len",
-    "std::string::String::len", "std::collections::HashMap::len", "std::collections::HashSet::len",
-    "std::iter::ExactSizeIterator::len",
+    "core::slice::len", "alloc::vec::Vec::len", "core::str::len", "heapless::vec::Vec::len",
+    "arraydeque::ArrayDeque::len", "alloc::string::String::len",
+    "core::iter::traits::exact_size::ExactSizeIterator::len",
 }
 EMPTY_CALLS = {
-    "core::slice::<impl [T]>::is_empty", "std::vec::Vec::is_empty", "alloc::vec::Vec::is_empty",
-    "core::str::<impl str>::is_empty", "std::string::String::is_empty", "heapless::Vec::is_empty",
-    "arraydeque::ArrayDeque::is_empty", "std::collections::VecDeque::is_empty",
+    "core::slice::is_empty", "alloc::vec::Vec::is_empty", "core::str::is_empty", "alloc::string::String::is_empty",
+    "heapless::vec::Vec::is_empty", "arraydeque::ArrayDeque::is_empty",
 }
 
 
@@ -453,7 +451,7 @@ class GuardFlow:
             d = t["d"]
             vals = [v for v, tb in t["ts"] if tb == succ]
             is_other = t["o"] == succ
-            if is_place(d) and not proj(d):
+            if is_place(d) and (not proj(d) or t.get("dty") != "bool"):
                 l = d["l"]
                 if t.get("dty") == "bool":
                     if vals and not is_other:
